@@ -77,6 +77,26 @@ def run(ctx):
                   '%s uses the database outside a single transaction scope (%d scopes)' % (m.name, len(withs)), m.loc())
     if n_ops < 10:
         ck.bad('C03-D1', base.qual, 'table operations', 'only %d table operations found (expected >= 10)' % n_ops)
+    # ... and an operation that has its own scope does not hand part of its work to a helper with another one (two commits:
+    # a kill between them leaves half of the operation behind)
+    def opens(m):
+        return any(isinstance(w, ast.With) and any(norm_text(i.context_expr) == 'self._session()' for i in w.items) for w in walk_no_nested(m.node))
+    opening = {m.name for m in base.methods.values() if opens(m) and not m.name.startswith('_session')}
+    changed = True
+    while changed:
+        changed = False
+        for m in base.methods.values():
+            if m.name not in opening and not m.name.startswith('_session') and any(
+                    U.is_self_attr(c.func) and c.func.attr in opening for c in U.calls(m.node) if isinstance(c.func, ast.Attribute)):
+                opening.add(m.name)
+                changed = True
+    for m in base.methods.values():
+        if not opens(m) or m.name.startswith('_session'):
+            continue
+        for c in U.calls(m.node):
+            if isinstance(c.func, ast.Attribute) and U.is_self_attr(c.func) and c.func.attr in opening and c.func.attr != m.name:
+                ck.bad('C03-D1', m.qual, 'self.%s(...) from an operation with its own transaction scope' % c.func.attr,
+                       '%s commits in its own scope and also calls %s, which opens another: the operation is two transactions' % (m.name, c.func.attr), m.loc(c))
 
     # ------------------------------------------------------------------ D2
     lite = repo.cls(SQL + ':SQLiteURLTable')
